@@ -198,11 +198,46 @@ def impl_step_obs(step):
     return [STATE_ID[a["state"]], int(a["resp"]), int(a["cd"]), a["remaining"], outs, int(bool(step["update"].get("ok")))]
 
 
+def _code_of(p):
+    c = [v for k, v in p["props"]["user"] if k == "code"]
+    return c[0] if c else None
+
+
+def starts_multipart(h, orc, st):
+    """does the request handled in this call start a multipart answer? (accepted only when idle;
+    judged from the pending iterator, which the request replaces)"""
+    b, a = st["before"], st["after"]
+    if h is None or "internal" not in orc or h.get("payload"):
+        return False
+    if len(h.get("resp", "")) > 128 or len(h.get("cd", [])) > 32:
+        return False
+    if a["state"] != "Multipart" or a["resp"] != ("resp" in h) or a["cd"] != ("cd" in h) or a["remaining"] != len(orc["internal"]):
+        return False
+    if b["state"] == "Init":
+        return False    # this call started the initial dump itself (state action), before the request was handled
+    if b["state"] != "Multipart":
+        return True     # (whether the client was allowed to accept it is checked by the caller)
+    # a pending walk may have completed earlier in this very call
+    if a["iter_root"] != b["iter_root"] or a["resp"] != b["resp"] or a["cd"] != b["cd"] or a["remaining"] > b["remaining"] or b["remaining"] == 0:
+        return True
+    if a["remaining"] < b["remaining"]:
+        return False
+    # same shape before and after: accepted only if the pending walk (which still had leaves) completed in
+    # this very call, which needs publish capacity and leaves its publications behind
+    pubs = [p for p in st["packets"] if p["t"] == "pub" and not p["dup"]]
+    if not b["can_publish"] or not pubs:
+        return False
+    if "resp" in h:
+        return not any(p["topic"] == h["resp"] and _code_of(p) == "Error" and p["props"]["cd"] == h.get("cd") for p in pubs)
+    return True
+
+
 def build_envs(sched, res):
     """what each update() observed of its environment -> Coq env terms (None if the run panicked before)"""
     envs = []
     all_leaves = [p for p, _ in res["leaves"]]
     prefix = sched["prefix"]
+    ever_connack = False
     for st_in, st in zip(sched["steps"], res["steps"]):
         if "after" not in st:
             envs.append(None)
@@ -251,8 +286,12 @@ def build_envs(sched, res):
         # poll event
         poll = "NoMsg"
         accepted = "None"
-        if st.get("connack") and not st["connack"]["session_present"]:
+        # minimq reports SessionReset for a CONNACK without session-present only if it had an active
+        # session before (session_state.was_reset): not for the first CONNACK it ever receives
+        if st.get("connack") and not st["connack"]["session_present"] and ever_connack and st.get("wire_before", True):
             poll = "SessionReset"
+        if st.get("connack") and st.get("wire_before", True):
+            ever_connack = True
         m = st.get("handled")
         if m is not None and poll == "NoMsg":
             topic = m["topic"]
@@ -280,8 +319,7 @@ def build_envs(sched, res):
             # outside the property's precondition (buffers hold one maximal response with a <=128 byte topic):
             # whether minimq can serialize the response is its verdict, observed
             big = len(m.get("resp", "")) > 128 or sched.get("buffer", 4096) < 2048
-            starts_multipart = "internal" in orc and b["state"] == "Single" and len(m.get("resp", "")) <= 128 and len(m.get("cd", [])) <= 32
-            if big and not starts_multipart:
+            if big and not starts_multipart(m, orc, st):
                 reply_ok = any(p["topic"] == m.get("resp", topic) for p in pubs)
             if not (b["can_publish"] and quiet_state):
                 accepted = "(Some %d%%nat)" % len(pubs)
